@@ -55,6 +55,8 @@ var (
 	theFetcher  crlutil.Fetcher
 	theST       time.Time
 	crlEntered  bool
+	// an exchange was started with a context that the validator itself had already cancelled (the caller's is live)
+	exchangeAborted [maxChain]bool
 	crlEntries  [maxChain]int
 )
 
@@ -83,6 +85,7 @@ func sumOCSP(ctx context.Context, cert, issuer *x509.Certificate, opts ocsp.Cert
 	ocspSeq[i] = seqCounter
 	ocspIssuer[i] = idxOf[issuer]
 	optsOK[i] = opts.HTTPClient == theClient && opts.SigningTime.Equal(theST)
+	exchangeAborted[i] = exchangeAborted[i] || rt.CancelledByCancelFunc(ctx)
 	if withPanics && rt.Choose("ocsp.panic."+digit(i), 2) == 1 {
 		ocspPanic[i] = true
 		panic("boom-ocsp-" + digit(i))
@@ -134,6 +137,7 @@ func sumCRL(ctx context.Context, cert, issuer *x509.Certificate, opts crl.CertCh
 	crlSeq[i] = seqCounter
 	crlIssuer[i] = idxOf[issuer]
 	optsOK[i] = optsOK[i] || (opts.Fetcher == theFetcher && opts.SigningTime.Equal(theST))
+	exchangeAborted[i] = exchangeAborted[i] || rt.CancelledByCancelFunc(ctx)
 	if withPanics && rt.Choose("crl.panic."+digit(i), 2) == 1 {
 		crlPanic[i] = true
 		panic("boom-crl-" + digit(i))
@@ -357,6 +361,11 @@ func H_C17_orch() {
 		return
 	}
 	rt.Assert(err == nil && len(res) == n, "C17.results.complete")
+	// the caller's context is live throughout: an exchange that is handed an already cancelled context was cancelled by
+	// the validator itself, which makes its outcome depend on the order in which the exchanges ran
+	for i := 0; i < n; i++ {
+		rt.Assert(!exchangeAborted[i], "C17.no.exchange.cancelled.by.the.validator")
+	}
 	if len(res) == n {
 		for i := 0; i < n; i++ {
 			checkTable(chain, res, i, n)
